@@ -99,7 +99,7 @@ def fresh_list_rule(ctx: Ctx, rid: str) -> None:
     repo = ctx.repo
     ctx.rule(rid, "materialising helpers return a fresh list on every path: auto_to_list's returns are list displays / comprehensions / list(...) calls, never its argument; the sync list filter is list(value)")
     al = repo.func("async_utils:auto_to_list")
-    rets = astq.returns(al.node)
+    rets = astq.returns(al.nnode)  # normal form: an append loop into a fresh list is the comprehension it spells out
     ctx.floor("returns in auto_to_list", len(rets), 1)
     params = set(al.params())
     for r in rets:
